@@ -454,6 +454,10 @@ impl RawVector {
     /// assert_eq!(v, w);
     /// ```
     pub fn resize(&mut self, new_len: usize, value: bool) {
+        // The number of words must be computable before anything is modified. Otherwise the computation panics
+        // halfway (or wraps around without overflow checks), leaving a vector whose length does not match its data.
+        assert!(new_len <= usize::MAX - (bits::WORD_BITS - 1), "RawVector: the length is too large");
+
         // Fill the unused bits if necessary.
         if new_len > self.len() {
             self.set_unused_bits(value);
